@@ -62,7 +62,14 @@ def fiber_cases(ctx):
 def where(c):
     if c["kind"] == "scalar":
         return f"{c['lk']}-{c['rk']}"
-    return "fiber" + (":nonzero-default" if c.get("d") else "") + (":active" if c.get("act") else "")
+    tag = ""
+    if c["op"] == "imul_ff":
+        # class of the known finding on a *= b: a stores an element at a coordinate where b has nothing (it should be dropped, it is kept)
+        d = c.get("d", 0)
+        bc = {x for x, p in c["b"]["e"] if p["v"] != d}
+        if any(x not in bc for x, p in c["a"]["e"]):
+            tag = ":a-outside-b"
+    return "fiber" + (":nonzero-default" if c.get("d") else "") + (":active" if c.get("act") else "") + tag
 
 
 def run(ctx):
